@@ -612,6 +612,161 @@ func walk(r *rand.Rand, playouts, maxPlies, synth int, visit func(f string, p *b
 		i++
 		play(f, r.Intn(12), 2)
 	}
+	// en-passant shapes (the corpus and random play reach few): plain ones, and those where the capture is the only way
+	// out of check
+	plain, only := synth/8+10, synth/40+6
+	for tries := 0; tries < synth*40+4000 && (plain > 0 || only > 0); tries++ {
+		f, ok, onlyEP := epSynthetic(r)
+		if !ok {
+			continue
+		}
+		if onlyEP && only > 0 {
+			only--
+			play(f, 0, 1)
+		} else if !onlyEP && plain > 0 {
+			plain--
+			play(f, r.Intn(3), 1)
+		}
+	}
 }
 
 func decode(f string) (*board.Position, board.Color, int, int, error) { return fen.Decode(f) }
+
+// epSynthetic builds a well-formed position in which a pawn has just made its double step next to an enemy pawn (the
+// en-passant capture is pseudo-legal), biased towards the rare shapes: the double-stepped pawn gives check, the capturing
+// side's king is boxed in, the capture exposes or shields a rank/diagonal. The second result says that the side to move is
+// in check and every legal reply is an en-passant capture.
+func epSynthetic(r *rand.Rand) (string, bool, bool) {
+	var cells [64]byte
+	whiteStepped := r.Intn(2) == 0 // White made the double step, Black to move
+	f := r.Intn(8)
+	g := f + 1
+	if f == 7 || (f > 0 && r.Intn(2) == 0) {
+		g = f - 1
+	}
+	land, origin, target, kingRank := 3, 1, 2, 4
+	pawnO, pawnS, kingS, kingO := byte('P'), byte('p'), byte('k'), byte('K')
+	if !whiteStepped {
+		land, origin, target, kingRank = 4, 6, 5, 3
+		pawnO, pawnS, kingS, kingO = 'p', 'P', 'K', 'k'
+	}
+	// squares are numbered h1 = 0 ... a8 = 63 in this engine: index = rank*8 + (7 - file)
+	at := func(file, rank int) int { return rank*8 + (7 - file) }
+	cells[at(f, land)] = pawnO
+	cells[at(g, land)] = pawnS
+	reserved := map[int]bool{at(f, origin): true, at(f, target): true}
+	free := func(sq int) bool { return cells[sq] == 0 && !reserved[sq] }
+	// the capturing side's king: often on a square the stepped pawn attacks
+	ks := -1
+	if r.Intn(3) != 0 {
+		kf := f + 1
+		if f == 7 || (f > 0 && r.Intn(2) == 0) {
+			kf = f - 1
+		}
+		if free(at(kf, kingRank)) {
+			ks = at(kf, kingRank)
+		}
+	}
+	for ks < 0 {
+		if sq := r.Intn(64); free(sq) {
+			ks = sq
+		}
+	}
+	cells[ks] = kingS
+	for {
+		sq := r.Intn(64)
+		dx, dy := sq%8-ks%8, sq/8-ks/8
+		if free(sq) && (dx < -1 || dx > 1 || dy < -1 || dy > 1) {
+			cells[sq] = kingO
+			break
+		}
+	}
+	n := r.Intn(10)
+	own, opp := "qrbnpp", "QRBNPQR"
+	if !whiteStepped {
+		own, opp = "QRBNPP", "qrbnpqr"
+	}
+	for i := 0; i < n; i++ {
+		for tries := 0; tries < 20; tries++ {
+			sq := r.Intn(64)
+			if r.Intn(2) == 0 { // near the boxed king
+				sq = ks + []int{-9, -8, -7, -1, 1, 7, 8, 9, -16, 16, -2, 2}[r.Intn(12)]
+				if sq < 0 || sq > 63 {
+					continue
+				}
+			}
+			ch := opp[r.Intn(len(opp))]
+			if r.Intn(3) == 0 {
+				ch = own[r.Intn(len(own))]
+			}
+			if !free(sq) || ((ch == 'P' || ch == 'p') && (sq/8 == 0 || sq/8 == 7)) {
+				continue
+			}
+			cells[sq] = ch
+			break
+		}
+	}
+	var sb strings.Builder
+	for rank := 7; rank >= 0; rank-- {
+		blanks := 0
+		for file := 7; file >= 0; file-- {
+			ch := cells[rank*8+file]
+			if ch == 0 {
+				blanks++
+				continue
+			}
+			if blanks > 0 {
+				sb.WriteString(strconv.Itoa(blanks))
+				blanks = 0
+			}
+			sb.WriteByte(ch)
+		}
+		if blanks > 0 {
+			sb.WriteString(strconv.Itoa(blanks))
+		}
+		if rank > 0 {
+			sb.WriteByte('/')
+		}
+	}
+	turn := "b"
+	if !whiteStepped {
+		turn = "w"
+	}
+	fenStr := fmt.Sprintf("%s %s - %c%d 0 %d", sb.String(), turn, 'a'+byte(f), target+1, 2+r.Intn(40))
+	p, t, _, _, err := fen.Decode(fenStr)
+	if err != nil || !chessWF(p, t) || p.IsChecked(t.Opponent()) {
+		return "", false, false
+	}
+	if ep, ok := p.EnPassant(); !ok || int(ep) != at(f, target) {
+		return "", false, false
+	}
+	only := false
+	if p.IsChecked(t) {
+		legal := p.LegalMoves(t)
+		only = len(legal) > 0
+		for _, m := range legal {
+			if m.Type != board.EnPassant {
+				only = false
+			}
+		}
+	}
+	return fenStr, true, only
+}
+
+// squeezed looks for a well-formed position in which the side to move is not in check and has at most `max` legal moves.
+func squeezed(r *rand.Rand, max int) (string, bool) {
+	for tries := 0; tries < 4000; tries++ {
+		f, ok := synthetic(r)
+		if !ok {
+			continue
+		}
+		p, t, _, _, _ := fen.Decode(f)
+		if p.IsChecked(t) {
+			continue
+		}
+		if n := len(p.LegalMoves(t)); n >= 1 && n <= max {
+			return f, true
+		}
+	}
+	return "", false
+}
